@@ -56,6 +56,7 @@ type phaseSpec struct {
 type roundSpec struct {
 	Index   int          `json:"round"`
 	Mode    string       `json:"mode"` // direct | netserver
+	Family  string       `json:"family,omitempty"`
 	MaxIn   uint         `json:"max_inbound"`
 	PerIP   uint         `json:"max_inbound_per_ip"`
 	MaxOut  uint         `json:"max_outbound"`
@@ -151,6 +152,57 @@ func genRound(rng *vf.RNG, idx int) *roundSpec {
 			ph.Ops = append(ph.Ops, opSpec{Kind: kind, Remote: rm})
 		}
 		rs.Phases = append(rs.Phases, ph)
+	}
+	return rs
+}
+
+// genHotIPRound: several OTHER IPs hold established inbound connections (phase 0, one or two per
+// IP), then more than MaxConnInBoundPerIP handshakes from one further IP run concurrently behind
+// the barrier (all pass the pre-handshake check before any is recorded); the total inbound limit
+// leaves room for all of them, so only the per-IP limit can refuse.  Optionally the wave is
+// repeated after some closes.
+func genHotIPRound(rng *vf.RNG, idx int) *roundSpec {
+	rs := &roundSpec{Index: idx, Mode: "direct", Family: "hot-ip", MaxOut: 2}
+	if idx%3 == 2 {
+		rs.Mode = "netserver"
+	}
+	rs.PerIP = uint(rng.Range(1, 3))
+	others := rng.Range(2, 12)
+	ph0 := phaseSpec{}
+	for i := 0; i < others; i++ {
+		n := 1
+		if rs.PerIP > 1 && rng.Chance(20) {
+			n = 2
+		}
+		for k := 0; k < n; k++ {
+			ph0.Ops = append(ph0.Ops, opSpec{Kind: "accept", Remote: len(rs.Remotes)})
+			rs.Remotes = append(rs.Remotes, remoteSpec{IP: fmt.Sprintf("10.7.%d.%d", i/200, 1+i%200), Port: uint16(20000 + len(rs.Remotes))})
+		}
+	}
+	wave := int(rs.PerIP) + rng.Range(1, 4)
+	ph1 := phaseSpec{Barrier: true}
+	first := len(rs.Remotes)
+	for k := 0; k < wave; k++ {
+		ph1.Ops = append(ph1.Ops, opSpec{Kind: "accept", Remote: len(rs.Remotes)})
+		rs.Remotes = append(rs.Remotes, remoteSpec{IP: "10.8.0.1", Port: uint16(20000 + len(rs.Remotes))})
+	}
+	rs.MaxIn = uint(len(rs.Remotes) + rng.Range(0, 2))
+	rs.Phases = []phaseSpec{ph0, ph1}
+	if rng.Chance(40) { // close some (any IP), then the same wave again: remotes still live are skipped
+		ph2 := phaseSpec{}
+		used := map[int]bool{}
+		nc := rng.Range(1, 3)
+		for k := 0; k <= nc; k++ {
+			rm := rng.Intn(len(rs.Remotes))
+			if k == nc {
+				rm = first + rng.Intn(wave)
+			}
+			if !used[rm] {
+				used[rm] = true
+				ph2.Ops = append(ph2.Ops, opSpec{Kind: "close", Remote: rm})
+			}
+		}
+		rs.Phases = append(rs.Phases, ph2, ph1)
 	}
 	return rs
 }
@@ -732,6 +784,32 @@ func (rd *round) runPhase(pi int, rng *vf.RNG) ([]finding, error) {
 	if ph.Barrier {
 		b = newBarrier(nAtt)
 	}
+	// workload shape: a barrier wave of more than MaxConnInBoundPerIP accepts from one IP while >=2 OTHER IPs
+	// hold established inbound connections and the total inbound limit has room for the whole wave
+	{
+		liveIPs, liveIn, waveIP := map[string]bool{}, 0, map[string]int{}
+		for _, rm := range rd.remotes {
+			if rm.live && rm.dir == "in" {
+				liveIPs[rm.spec.IP] = true
+				liveIn++
+			}
+		}
+		for _, p := range plan {
+			if p.op.spec.Kind == "accept" {
+				waveIP[p.rm.spec.IP]++
+			}
+		}
+		for ip, n := range waveIP {
+			others := len(liveIPs)
+			if liveIPs[ip] {
+				others--
+			}
+			if ph.Barrier && uint(n) > rd.spec.PerIP && others >= 2 && uint(liveIn+nAtt) <= rd.spec.MaxIn {
+				rd.stats["wave_over_per_ip_limit_beside_other_ips"]++
+				break
+			}
+		}
+	}
 	o := obs{Phase: pi, Barrier: ph.Barrier, PerIP: map[string]int{}}
 	for _, p := range plan {
 		p.op.party = &party{b: b}
@@ -974,7 +1052,7 @@ func runRound(rs *roundSpec, rng *vf.RNG) ([]finding, map[string]int64, error) {
 
 func main() {
 	r := vf.NewRun("C36", "exploration",
-		"seeded rounds: a fresh ConnectController (limits in/per-ip/out = 3/2/2, or small random limits in 25% of rounds) over a fresh mock network with 2–64 remotes on 1..n IPs; 1–4 phases of concurrent accept/connect/close ops; in barrier phases the remote end of each handshake is held until every attempt of the phase passed the pre-handshake check; 3 of 4 rounds drive the controller directly (goroutine per accepted conn, as startNetAccept), 1 of 4 through a real NetServer; a round is non-trivial when a phase has >=2 concurrent attempts; distinct by the round spec")
+		"seeded rounds: a fresh ConnectController (limits in/per-ip/out = 3/2/2, or small random limits in 25% of rounds) over a fresh mock network with 2–64 remotes on 1..n IPs; 1–4 phases of concurrent accept/connect/close ops; in barrier phases the remote end of each handshake is held until every attempt of the phase passed the pre-handshake check; 3 of 4 rounds drive the controller directly (goroutine per accepted conn, as startNetAccept), 1 of 4 through a real NetServer; a round is non-trivial when a phase has >=2 concurrent attempts; distinct by the round spec; plus hot-ip rounds (2–12 other IPs hold established inbound connections, then a barrier wave of more than per-ip-limit accepts from one further IP, total limit not binding) and outbound re-dial scenarios (outbound limit 2–4; an address is dialed again while an earlier Connect to it is held inside its handshake and after it is established, closes in between, then the slots are filled with fresh addresses; established connections counted as the remote sides see them at quiescent points)")
 	log.InitLog(log.MaxLevelLog) // the p2p packages log through the global logger: silence it
 	common.Difficulty = 1
 	handshake.HANDSHAKE_DURATION = time.Hour // handshake deadlines must never fire: no wall-clock dependence
@@ -987,14 +1065,22 @@ func main() {
 	best := map[string]finding{}
 	hits := map[string]int{}
 	var firstViolatingRound = -1
-	for i := 0; i < nRounds; i++ {
-		rs := genRound(rng.Sub(uint64(i)), i)
+	nHot := vf.N(45, 900)
+	stuck := false
+	for i := 0; i < nRounds+nHot; i++ {
+		var rs *roundSpec
+		if i < nRounds {
+			rs = genRound(rng.Sub(uint64(i)), i)
+		} else {
+			rs = genHotIPRound(rng.Sub(uint64(2_000_000+i)), i)
+		}
 		fs, stats, err := runRound(rs, rng.Sub(uint64(1_000_000+i)))
 		if err != nil {
 			r.Inconclusive(err.Error())
 			if strings.Contains(err.Error(), "watchdog") {
 				// goroutines of the stuck phase cannot be reclaimed: stop here
 				fmt.Fprintln(os.Stderr, "C36: "+err.Error())
+				stuck = true
 				break
 			}
 			continue
@@ -1029,10 +1115,13 @@ func main() {
 		}
 		r.Eval(fp)
 		r.Count("rounds_" + rs.Mode)
+		if rs.Family != "" {
+			r.Count("rounds_family_" + rs.Family)
+		}
 		for k, n := range stats {
 			r.Add(k, n)
 		}
-		if i < 3 {
+		if i < 3 || i == nRounds {
 			r.Sample(rs)
 		}
 		if len(fs) > 0 {
@@ -1059,6 +1148,9 @@ func main() {
 			"note": "smallest violating round for this key; remote source ports come from the mock network's crypto/rand and do not influence the verdict"})
 	}
 	r.Extra("violating_rounds_by_key", hits)
+	if !stuck {
+		runOutboundFamily(r, rng)
+	}
 
 	racelog.Apply(r, "p2pserver/connect_controller/")
 	if !racelog.Enabled {
@@ -1066,7 +1158,8 @@ func main() {
 	}
 	for _, c := range []string{"rounds_direct", "rounds_netserver", "phase_barrier", "phase_free", "accept_ok", "connect_ok", "close_done",
 		"close_concurrent_with_attempts", "wave_accepts_over_inbound_limit", "wave_connects_over_outbound_limit", "quiescent_checks",
-		"sampler_samples", "netserver_server_close", "netserver_remote_close", "accept_rejected_limit", "connect_rejected_limit"} {
+		"sampler_samples", "netserver_server_close", "netserver_remote_close", "accept_rejected_limit", "connect_rejected_limit",
+		"rounds_family_hot-ip", "wave_over_per_ip_limit_beside_other_ips"} {
 		r.Require(c, 1)
 	}
 	r.Assume("every remote uses a distinct peer id, a distinct source ip:port and a distinct advertised listen port (as real TCP peers do); same-IP remotes differ only in ports")
